@@ -318,6 +318,32 @@ def run(rep, tier):
         rep.ob("R7", dmp.qualname, "py2-target:%s-writer" % tn, okk, expected=meth_want, derived=reached[:2],
                msg="written for a Python 2 target, a %s constant goes to %s: Python 2 loads %s, so the rewritten file is a different program" % (
                    tn, reached[:1], "a unicode object (u'...')" if tn == "str" else "a long (5L)"))
+    # what the unmarshaller produced for the *other* member of each Python 2 pair (a str subclass carrying a u'...' literal, an int subclass carrying a
+    # long) must keep its kind: the generic dump() is specialised for an instance of each wrapper class
+    ct = F.modules.get("xdis.cross_types")
+    for cname, arg, want_w, what in (("UnicodeForPython3", b"k", "dump_unicode", "a u'...' literal (TYPE_UNICODE)"), ("LongTypeForPython3", 5, "dump_long", "a long such as 5L (TYPE_LONG)")):
+        Cw = ct.ns.get(cname) if ct else None
+        if not isinstance(Cw, ClassRef):
+            raise AnalysisError("anchor vanished: xdis.cross_types.%s" % cname)
+        for pv in ((2, 7), (2, 4)):
+            reached = []
+
+            def hook7w(spec, name, fv, args, kw, node, reached=reached):
+                base = name.split(".")[-1]
+                if base.startswith("dump_") and name.startswith("xdis.marsh._Marshaller."):
+                    reached.append(base)
+                    return None
+                return NotImplemented
+            sp7 = Spec(F, hooks=[hook7w])
+            try:
+                val = sp7.call(Cw, [arg], {}, None, {})
+                me7 = Instance(Mcls)
+                me7.attrs.update(_write=Sym("WRITE"), python_version=pv)
+                sp7.run(dmp, [me7, val])
+            except Exception as ex:
+                reached.append("not evaluable: %s" % ex)
+            rep.ob("R7", dmp.qualname, "py2-target=%d.%d:%s-writer" % (pv[0], pv[1], cname), reached[:1] == [want_w], expected="%s for %s" % (want_w, what), derived=reached[:2],
+                   msg="written for a Python %d.%d target, %s read from the original file goes to %s: the rewritten program has a constant of the other kind" % (pv[0], pv[1], what, reached[:1]))
     # the Python 2 machine-int writer: TYPE_INT exactly for values that fit 32 bits, TYPE_INT64 (two 32-bit halves) otherwise
     di = Mcls.lookup("dump_int")
     if not isinstance(di, FuncRef):
